@@ -3,7 +3,7 @@ evaluator -> attribution of disagreements to listed known findings -> violations
 import collections
 import json
 
-from . import common, findings
+from . import common, ctype, findings
 from . import diff as D
 from . import ilfront as IL
 
@@ -175,7 +175,16 @@ class Family:
             status = "violation"
             if r2 is not None and r2.verdict() == "ok" and r2.kf_used:
                 mechs = sorted(r2.kf_used)
-                if all(m in run.findings for m in mechs):
+                if "cast_sext" in mechs:
+                    # the blamed casts must be conversions signed -> wider unsigned that C itself performs in this source
+                    ev = res[k].get("trace", {}).get("casts", ())
+                    blamed = {(int(sw), int(dw)) for ss, sw, ds, dw, txt in ev if ss and not ds and int(dw) > int(sw) and txt.startswith(f"CAST({int(dw)}, IL_FALSE,")}
+                    it = p.extra.get("item", {})
+                    expected = ctype.sext_conversions(p.src, subs=[tuple(x) for x in it.get("subs", [])])
+                    if expected is None or not blamed <= set(expected):
+                        r.notes["attribution_refused"] = f"casts {sorted(blamed - set(expected or []))} (signed -> wider unsigned) are not conversions C performs in this source"
+                        mechs = None
+                if mechs and all(m in run.findings for m in mechs):
                     for m in mechs:
                         run.known(m, {"source": p.src, "first_failure": r.fail_states[:1]})
                     status = "known:" + ",".join(mechs)
@@ -207,7 +216,7 @@ class Family:
         it = p.extra.get("item", {})
         replay = {"kind": v, "label": self.label, "name": p.name, "text": p.src, "exports": p.exports, "subs": it.get("subs", []),
                   "c_subs": p.c_subs, "aged": it.get("aged", 0), "layout": it.get("layout", "rs"), "emitted": p.rzil,
-                  "failures": r.fail_states, "after_counterfactual_repair": (r2.verdict() if r2 else None)}
+                  "failures": r.fail_states, "after_counterfactual_repair": (r2.verdict() if r2 else None), "notes": r.notes}
         key = None
         if it.get("vkey"):
             key = f"{self.label}:{it['vkey']}"
